@@ -107,6 +107,9 @@ impl<T> InnerQueue<T> {
         match self.tx_ports.fetch_sub(1, Ordering::SeqCst) {
             1 => {
                 // there is no tx port any more
+                // always leave one more permit as the disconnect signal, the permits
+                // that are there now could be all consumed by the queued data
+                self.sem.post();
                 // should tell all the waited rx to come back
                 while self.sem.get_value() == 0 {
                     self.sem.post();
